@@ -278,6 +278,8 @@ func (m *MemoryBackend) Subscribe(client *Client, subs []packet.Subscription, ac
 
 	// save subscription
 	for _, sub := range subs {
+		// copy subscription as the loop variable is reused
+		sub := sub
 		sess.subscriptions.Set(sub.Topic, &sub)
 	}
 
